@@ -1754,6 +1754,206 @@ example : filterRequest (assemble (builtStorage { sb := false } (exStorage.sb.re
 #print axioms production_anonymous_blocked_shape
 #print axioms blocked_query_needs_upstream
 
+/-! ## Round 5: the backend's profile message (`backendpb.DNSProfile.toInternal`) -/
+
+theorem onlyIf_isSome {α : Type} (b : Bool) (a : α) : (onlyIf b a).isSome = b := by
+  cases b <;> rfl
+
+/-- **backend_settings_in_force** (round 5).  A profile as the backend sends it
+(`backendpb.DNSProfile.toInternal`): whatever the storage holds, each safety filter / list slot of the
+profile's composite filter is filled iff the setting OF THE SAME NAME of the message (inside its
+section's master switch, absent sections counting as switched off, parental control outside its
+pause) says so; the custom rules are in force iff there are any; the profile-level filtering switch
+is the message's, the device-level one the device's. -/
+theorem backend_settings_in_force (x : PbProfile) (devOn : Bool) (p : Profile) (st : Storage)
+    (h : x.toProfile devOn = some p) :
+    let c := assemble st p.conf
+    let par := x.parental.getD {}
+    let rl := x.ruleLists.getD {}
+    let sb := x.safeBrowsing.getD {}
+    let parOn := par.enabled && !p.conf.paused st.now
+    c.adult.isSome = (parOn && par.blockAdult) ∧
+    c.genSS.isSome = (parOn && par.generalSafeSearch) ∧
+    c.ytSS.isSome = (parOn && par.youtubeSafeSearch) ∧
+    c.svcs = (if parOn then pickKnown st.svcs par.blockedServices else []) ∧
+    c.sb.isSome = (sb.enabled && sb.blockDangerous) ∧
+    c.newReg.isSome = (sb.enabled && sb.blockNrd) ∧
+    c.lists = (if rl.enabled then pickKnown st.lists rl.ids else []) ∧
+    c.custom = (if x.customRules.isEmpty then Option.none else some x.customRules) ∧
+    p.filteringOn = x.filteringEnabled ∧ p.devFilteringOn = devOn := by
+  unfold PbProfile.toProfile at h
+  split at h
+  · simp only [Option.some.injEq] at h
+    subst h
+    simp [assemble, onlyIf_isSome]
+  · exact absurd h (by simp)
+
+/-- **backend_absent_is_default.**  A message without parental, rule-list and safe-browsing
+sections, without custom rules, blocking mode and TTL is accepted; nothing is filtered for that
+profile and its blocked answers (none can arise from its own settings) would be null IP with TTL 0. -/
+theorem backend_absent_is_default (x : PbProfile) (devOn : Bool) (srv : Server)
+    (hp : x.parental = Option.none) (hr : x.ruleLists = Option.none) (hs : x.safeBrowsing = Option.none)
+    (hc : x.customRules = []) (hm : x.mode = .unset) (ht : x.ttl = Option.none) :
+    ∃ p, x.toProfile devOn = some p ∧ assemble srv.st p.conf = {} ∧ ctorOf srv (some p) = (.nullIP, 0) := by
+  have hpz : x.pause = some Option.none := by simp [PbProfile.pause, hp]
+  have hmz : x.mode.toMode = some .nullIP := by simp [hm, PbMode.toMode]
+  simp only [PbProfile.toProfile, hpz, hmz]
+  refine ⟨_, rfl, ?_, ?_⟩
+  · simp [assemble, hp, hr, hs, hc, onlyIf, PCfg.paused]
+  · simp [ctorOf, ht, durSecs]
+
+/-- **backend_mode_of_message.**  The requester's own blocking mode and TTL are the message's: NXDOMAIN
+is NXDOMAIN, REFUSED is REFUSED, null IP or no mode at all is null IP, an absent TTL is zero. -/
+theorem backend_mode_of_message (x : PbProfile) (devOn : Bool) (p : Profile) (h : x.toProfile devOn = some p) :
+    p.mode = x.mode.toMode ∧ p.ttl = x.ttl.getD 0 ∧
+    (x.mode = .nxdomain → p.mode = some .nxdomain) ∧ (x.mode = .refused → p.mode = some .refused) ∧
+    (x.mode = .nullIP ∨ x.mode = .unset → p.mode = some .nullIP) := by
+  unfold PbProfile.toProfile at h
+  split at h
+  · rename_i sched m hs hm
+    simp only [Option.some.injEq] at h
+    subst h
+    refine ⟨hm.symm, rfl, ?_, ?_, ?_⟩
+    · intro hx; rw [hx] at hm; simpa [PbMode.toMode] using hm.symm
+    · intro hx; rw [hx] at hm; simpa [PbMode.toMode] using hm.symm
+    · intro hx; rcases hx with hx | hx <;> (rw [hx] at hm; simpa [PbMode.toMode] using hm.symm)
+  · exact absurd h (by simp)
+
+/-- **backend_day_range_inclusive** (independent reading of a day range): the backend names the first
+and the LAST minute of the pause; whatever seconds (below a minute) either duration carries, the
+stored interval is `[s, e+1)` — it covers the whole of minute `e` — and is accepted for every
+`s ≤ e ≤ 23:59`. -/
+theorem backend_day_range_inclusive (s e a b : Nat) (hse : s ≤ e) (he : e < 1440)
+    (ha : a < 60000000000) (hb : b < 60000000000) :
+    PbDayRange.toIv { startNs := (s : Int) * nsPerMin + a, endNs := (e : Int) * nsPerMin + b } =
+      some { start := s, stop := e + 1 } := by
+  have h1 : ((s : Int) * 60000000000 + a) / 60000000000 = s := by omega
+  have h2 : ((e : Int) * 60000000000 + b) / 60000000000 = e := by omega
+  have h0 : ¬ ((s : Int) * 60000000000 + (a : Int) ≤ -60000000000) := by omega
+  have h3 : ¬ ((e : Int) + 1).toNat < s := by omega
+  have h4 : ¬ (((e : Int) + 1).toNat = 0) := by omega
+  have h5 : ((e : Int) + 1).toNat = e + 1 := by omega
+  simp [PbDayRange.toIv, nsPerMin, nsPerSec, h1, h2, h0, h5]
+  omega
+
+
+/-- **backend_no_address_rejected.**  A custom-IP mode without any address rejects the whole profile
+message (the profile is not stored), whatever else it says. -/
+theorem backend_no_address_rejected (x : PbProfile) (devOn : Bool) (h : x.mode = .customIP Option.none Option.none) :
+    x.toProfile devOn = Option.none := by
+  unfold PbProfile.toProfile
+  simp [h, PbMode.toMode]
+
+/-- **backend_ipv4_field_takes_ipv6** (observation, the origin of the round-2 finding): the ipv4 field
+of the custom-IP mode is read by length, not by family; a 16-byte value gives an accepted profile whose
+mode is ill-formed — its blocked A queries are answered SERVFAIL (`blocked_shape`). -/
+theorem backend_ipv4_field_takes_ipv6 :
+    ∃ (x : PbProfile) (p : Profile), x.toProfile true = some p ∧ (p.mode.map Mode.WF) = some false :=
+  ⟨{ mode := .customIP (some (false, "2001:db8:1::4")) Option.none }, _, rfl, by decide⟩
+
+-- non-vacuity: a message with every section, a pause on Wednesday 11:40–13:20 (last minute 13:19)
+def exPb : PbProfile :=
+  { filteringEnabled := true, customRules := [.net ["c", "test"] false .any]
+    parental := some { enabled := true, blockAdult := true, youtubeSafeSearch := true, blockedServices := [1]
+                       schedule := some { zone := {}, days := [Option.none, Option.none, Option.none,
+                         some { startNs := 700 * nsPerMin + 30 * nsPerSec, endNs := 799 * nsPerMin + 59 * nsPerSec }] } }
+    ruleLists := some { enabled := true, ids := [0] }
+    safeBrowsing := some { enabled := true, blockNrd := true }
+    mode := .refused, ttl := some 1500000000 }
+
+example : ((exPb.toProfile true).map fun p => (p.mode, p.ttl, p.conf.adultOn, p.conf.gssOn, p.conf.yssOn, p.conf.nrdOn, p.conf.dangerousOn)) =
+    some (some .refused, 1500000000, true, false, true, true, false) := by rfl
+example : ((exPb.toProfile true).bind fun p => p.conf.pause.map fun s => s.week) =
+    some [Option.none, Option.none, Option.none, some { start := 700, stop := 800 }] := by decide
+example : PbDayRange.toIv { startNs := (700 : Nat) * nsPerMin + (30000000000 : Nat), endNs := (799 : Nat) * nsPerMin + (59000000000 : Nat) } =
+    some { start := 700, stop := 800 } := backend_day_range_inclusive 700 799 _ _ (by decide) (by decide) (by decide) (by decide)
+-- beyond the hypotheses the message is rejected: a last minute of 24:00, an end before the start
+example : PbDayRange.toIv { startNs := 0, endNs := 1440 * nsPerMin } = Option.none := by decide
+example : PbDayRange.toIv { startNs := 600 * nsPerMin, endNs := 500 * nsPerMin } = Option.none := by decide
+example : (PbProfile.toProfile {} false).isSome = true := by decide
+example : PbProfile.toProfile { mode := .customIP Option.none Option.none } true = Option.none :=
+  backend_no_address_rejected _ _ rfl
+
+#print axioms onlyIf_isSome
+#print axioms backend_settings_in_force
+#print axioms backend_absent_is_default
+#print axioms backend_mode_of_message
+#print axioms backend_day_range_inclusive
+#print axioms backend_no_address_rejected
+#print axioms backend_ipv4_field_takes_ipv6
+
+/-! ## Round 5: the special domains of the initial middleware -/
+
+/-- **special_off_is_serve** (round 5).  With the three special-domain switches off the initial
+middleware answers nothing itself: the whole stack is `serve`, for every name and type — every theorem
+about `serve` is a theorem about the stack. -/
+theorem special_off_is_serve (e : Env) (host : Host) (qt : QType) :
+    serveSpecial {} e host qt = serve e host qt := by
+  unfold serveSpecial specialRcode
+  simp only [onlyIf]
+  split <;> (try rfl)
+  rename_i rc h
+  split at h <;> (try split at h) <;> (try split at h) <;> (try split at h) <;> simp_all
+
+/-- **special_only_fixed_names.**  Whatever the switches, the initial middleware answers itself only
+address queries for the five fixed names, and then with NXDOMAIN or REFUSED; every other question
+reaches the filters unchanged. -/
+theorem special_only_fixed_names (sw : SpecialSw) (host : Host) (qt : QType) (rc : Nat)
+    (h : specialRcode sw host qt = some rc) :
+    (qt = qtA ∨ qt = qtAAAA) ∧ (host ∈ relayHosts ∨ host = prefetchHost ∨ host = canaryHost) ∧ (rc = 3 ∨ rc = 5) := by
+  unfold specialRcode at h
+  split at h
+  · simp at h
+  · rename_i hq
+    have hq' : qt = qtA ∨ qt = qtAAAA := by
+      have hq2 : ¬qt = qtA → qt = qtAAAA := by simpa using hq
+      by_cases h1 : qt = qtA
+      · exact Or.inl h1
+      · exact Or.inr (hq2 h1)
+    split at h
+    · rename_i hr
+      refine ⟨hq', Or.inl (by simpa using hr), ?_⟩
+      cases hs : sw.relay <;> simp [onlyIf, hs] at h; omega
+    · split at h
+      · rename_i hp
+        refine ⟨hq', Or.inr (Or.inl (by simpa using hp)), ?_⟩
+        cases hs : sw.prefetch <;> simp [onlyIf, hs] at h; omega
+      · split at h
+        · rename_i hc
+          refine ⟨hq', Or.inr (Or.inr (by simpa using hc)), ?_⟩
+          cases hs : sw.canary <;> simp [onlyIf, hs] at h; omega
+        · simp at h
+
+/-- **special_answer_no_upstream.**  An answer of the initial middleware carries no record at all
+(nothing from the upstream in any section) and depends on nothing but the requester's TTL: not on the
+rules, the filtering switches, the blocking mode or the upstream. -/
+theorem special_answer_no_upstream (sw : SpecialSw) (e : Env) (host : Host) (qt : QType) (rc : Nat)
+    (h : specialRcode sw host qt = some rc) :
+    serveSpecial sw e host qt = { rcode := rc, ans := [], soa := some e.ttl, upNs := 0, upExtra := 0 } := by
+  simp [serveSpecial, h]
+
+/-- **special_domain_ignores_filtering** (observation, kernel-checked; confirmed on the real stack,
+counted as `special-domain-answered-while-filtering-off` / `-beats-custom-allow`): a profile with
+"block Private Relay" on gets NXDOMAIN for `mask.icloud.com` although filtering is switched off for
+it and the upstream has an answer — the special-domain switches are not part of what
+`filtering_enabled` switches off. -/
+theorem special_domain_ignores_filtering :
+    ∃ (e : Env) (host : Host), e.sw = ⟨true, false, false⟩ ∧
+      serve e host qtA = e.upstream host qtA ∧ (e.upstream host qtA).ans ≠ [] ∧
+      serveSpecial { relay := true } e host qtA = { rcode := 3, ans := [], soa := some e.ttl } :=
+  ⟨{ sw := ⟨true, false, false⟩, prof := {}, grp := {}, mode := .nullIP, ttl := 10,
+     upstream := fun h _ => { rcode := 0, ans := [synthRR h qtA 300 "192.0.2.1"], soa := Option.none } },
+   ["mask", "icloud", "com"], rfl, by decide, by decide, by decide⟩
+
+example : specialRcode { canary := true } canaryHost qtAAAA = some 5 := by decide
+example : specialRcode { relay := true, prefetch := true, canary := true } ["sub", "mask", "icloud", "com"] qtA = Option.none := by decide
+example : specialRcode { relay := true, prefetch := true, canary := true } prefetchHost 65 = Option.none := by decide
+
+#print axioms special_off_is_serve
+#print axioms special_only_fixed_names
+#print axioms special_answer_no_upstream
+#print axioms special_domain_ignores_filtering
+
 end Agd.Filter
 #print axioms Agd.Tie.TrC02.translation_complete
 #print axioms Agd.Tie.TrC02.blocked_never_upstream
